@@ -1,0 +1,103 @@
+// Verification hooks (compiled only with `--cfg ragc_verif`).
+//
+// Nothing here changes behaviour: `point()` calls a perturbation callback if a test
+// harness installed one (otherwise it is a single relaxed atomic load), and the event
+// log is only written while a harness has switched it on.
+//
+//   point(site, worker)   yield / delay points inside the compression pipeline
+//   event(kind, a, b)     pipeline events (token pulled, barrier arrive/leave, worker exit)
+//   queue_event(...)      queue events, recorded while the queue lock is held, so the log
+//                         order of the queue events is their linearisation order
+
+use std::sync::atomic::{AtomicBool, Ordering};
+use std::sync::{Arc, Mutex, RwLock};
+
+pub type PointFn = dyn Fn(u32, usize) + Send + Sync;
+
+static POINT_ON: AtomicBool = AtomicBool::new(false);
+static POINT: RwLock<Option<Arc<PointFn>>> = RwLock::new(None);
+static LOG_ON: AtomicBool = AtomicBool::new(false);
+static LOG: Mutex<Vec<Event>> = Mutex::new(Vec::new());
+
+#[derive(Clone, Debug)]
+pub struct Event {
+    pub kind: &'static str,
+    /// small per-process thread number (order of first appearance in the log)
+    pub thread: u64,
+    pub a: u64,
+    pub b: u64,
+    pub c: u64,
+    pub flag: bool,
+}
+
+pub const SITE_AFTER_PULL: u32 = 1;
+pub const SITE_BEFORE_RAW_PUSH: u32 = 2;
+pub const SITE_BARRIER_1: u32 = 3;
+pub const SITE_BARRIER_2: u32 = 4;
+pub const SITE_BARRIER_3: u32 = 5;
+pub const SITE_BARRIER_4: u32 = 6;
+pub const SITE_CLAIM_LOOP: u32 = 7;
+
+pub fn install_point(f: Option<Arc<PointFn>>) {
+    let on = f.is_some();
+    *POINT.write().unwrap() = f;
+    POINT_ON.store(on, Ordering::SeqCst);
+}
+
+#[inline]
+pub fn point(site: u32, worker: usize) {
+    if POINT_ON.load(Ordering::Relaxed) {
+        let f = POINT.read().unwrap().clone();
+        if let Some(f) = f {
+            f(site, worker);
+        }
+    }
+}
+
+pub fn start_log() {
+    LOG.lock().unwrap().clear();
+    LOG_ON.store(true, Ordering::SeqCst);
+}
+
+pub fn take_log() -> Vec<Event> {
+    LOG_ON.store(false, Ordering::SeqCst);
+    std::mem::take(&mut *LOG.lock().unwrap())
+}
+
+fn thread_no() -> u64 {
+    use std::sync::atomic::AtomicU64;
+    static NEXT: AtomicU64 = AtomicU64::new(1);
+    thread_local! {
+        static ME: u64 = NEXT.fetch_add(1, Ordering::Relaxed);
+    }
+    ME.with(|m| *m)
+}
+
+#[inline]
+pub fn event(kind: &'static str, a: u64, b: u64) {
+    if LOG_ON.load(Ordering::Relaxed) {
+        LOG.lock().unwrap().push(Event {
+            kind,
+            thread: thread_no(),
+            a,
+            b,
+            c: 0,
+            flag: false,
+        });
+    }
+}
+
+/// Called by MemoryBoundedQueue with its lock held.
+#[inline]
+pub fn queue_event(kind: &'static str, size: usize, len: usize, bytes: usize, closed: bool) {
+    if LOG_ON.load(Ordering::Relaxed) {
+        LOG.lock().unwrap().push(Event {
+            kind,
+            thread: thread_no(),
+            a: size as u64,
+            b: len as u64,
+            c: bytes as u64,
+            flag: closed,
+        });
+    }
+}
